@@ -6,10 +6,6 @@ import Paho.Gen.BytesConsts
 import Paho.Model.Validate
 namespace Paho
 
-abbrev Bytes := List UInt8
-
-def b8 (n : Nat) : UInt8 := UInt8.ofNat n
-
 /-- `_pack_remaining_length`: the unchecked loop (`% 128`, `// 128`, `|= 0x80`). -/
 def remLenEnc (n : Nat) : Bytes :=
   if h : n / Gen.rlBase > 0 ∧ Gen.rlBase > 1 then
